@@ -453,7 +453,14 @@ impl BuiltInFunction {
                     format!("top vector index `{top}` could not be used to index (usize)")
                 })?;
 
-                Ok((Some(Primitive::Str(s[bottom..top].to_owned())), None))
+                let Some(slice) = s.get(bottom..top) else {
+                    bail!(
+                        "substring range {bottom}..{top} is out of bounds for a string of length {}",
+                        s.len()
+                    )
+                };
+
+                Ok((Some(Primitive::Str(slice.to_owned())), None))
             }
             Self::StrContains => {
                 let Some(Primitive::Str(s)) = arguments.first() else {
